@@ -57,8 +57,9 @@ class Authenticator(object):
 
         ak, owner, ident, secret, pubchans, subchans = res
 
-        pubchans = json.loads(pubchans)
-        subchans = json.loads(subchans)
+        # a row inserted without channel lists (NULL or empty column) grants nothing
+        pubchans = json.loads(pubchans) if pubchans else []
+        subchans = json.loads(subchans) if subchans else []
 
         return dict(
             secret=secret,
